@@ -1140,6 +1140,7 @@ def analyse(rep: Report) -> None:
     rep.rule('R06.10', 'a synthesised tfdt is the sum of the durations of the fragments before the requested one', floor=1)
     rep.rule('R06.11', 'an S run is extended only when the listed duration equals the duration of the run', floor=1)
     rep.rule('R06.12', 'the stored media duration is the sum of the durations of the media fragments', floor=2)
+    rep.rule('R06.13', 'the sample durations and sizes the indexer sums are the ones in the file (C04 R04.12)', floor=1)
     r06_1(rep)
     r06_2(rep)
     r06_3(rep)
@@ -1152,3 +1153,12 @@ def analyse(rep: Report) -> None:
     r06_10(rep)
     r06_11(rep)
     r06_12(rep)
+    # the indexer sums the sample durations the trun parser hands it: those are the values in the file (C04's rule)
+    from ..core import lift
+    from . import c04 as _c04
+
+    def _run(sub):
+        sub.rule('R04.12', 'a value a parser read from the file is not replaced by a default', floor=0)
+        _c04.r04_12(sub)
+    lift(rep, 'R06.13', 'C04', _run, ('R04.12',), 'dashlive/mpeg/mp4.py::TrackSample.parse',
+         'per-sample durations and sizes of a trun are the ones in the file')
